@@ -88,3 +88,168 @@ theorem resolve_loop (body : PyVal → PyVal → Res) (hbody : ∀ cur seg, body
   | cons s segs ih => simp only [List.map_cons, forFold, hbody, bind_ok, List.foldl_cons, ih]
 
 end Rbacx.PyE
+
+namespace Rbacx.PyE
+open PyVal
+
+/-! ### stage 2: the binary operators -/
+
+/-- `a, b = v` as the translator reads it (TypeError when not iterable, ValueError when not two items) is the model's `unpack2` -/
+theorem unpack2_eq {β : Type} (v : PyVal) (k : PyVal → PyVal → Except CondErr β) :
+    unpack2 v k = bind (Rbacx.unpack2 v) fun p => k p.1 p.2 := by
+  cases v with
+  | list xs =>
+    match xs with
+    | [] => rfl
+    | [_] => rfl
+    | [_, _] => rfl
+    | _ :: _ :: _ :: _ => rfl
+  | str s =>
+    simp only [unpack2, iterE, isIterable, if_true, Rbacx.Py.iter, Rbacx.unpack2]
+    generalize s.toList = cs
+    match cs with
+    | [] => rfl
+    | [_] => rfl
+    | [_, _] => rfl
+    | _ :: _ :: _ :: _ => rfl
+  | dict kvs =>
+    match kvs with
+    | [] => rfl
+    | [_] => rfl
+    | [(_, _), (_, _)] => rfl
+    | _ :: _ :: _ :: _ => rfl
+  | _ => rfl
+
+/-- the operator-specific part of `evalBin`, on the resolved operands -/
+def evalOp (cx : CondCtx) (op : BinOp) (x y : PyVal) : CondRes :=
+  match op with
+  | .eq => pure (pyEq x y)
+  | .ne => pure (!pyEq x y)
+  | .gt => do let (m, n) ← numericPair x y; pure (m > n)
+  | .lt => do let (m, n) ← numericPair x y; pure (m < n)
+  | .ge => do let (m, n) ← numericPair x y; pure (m >= n)
+  | .le => do let (m, n) ← numericPair x y; pure (m <= n)
+  | .contains =>
+    (match x, y with
+     | .list xs, _ => pure (pyIn y xs)
+     | .str s, .str t => pure (strContains s t)
+     | _, _ => throw .typeMismatch)
+  | .isIn =>
+    (match x, y with
+     | .list xs, .list ys => pure (ys.any fun v => pyIn v xs)
+     | _, .list ys => pure (pyIn x ys)
+     | .list xs, _ => pure (pyIn y xs)
+     | .str s, .str t => pure (strContains t s)
+     | _, _ => throw .typeMismatch)
+  | .hasAll =>
+    (match x, y with
+     | .list col, .list needed => pure (needed.all fun v => pyIn v col)
+     | _, _ => throw .typeMismatch)
+  | .hasAny =>
+    (match x, y with
+     | .list col, .list opts => pure (opts.any fun v => pyIn v col)
+     | _, _ => throw .typeMismatch)
+  | .startsWith =>
+    (match x, y with
+     | .str s, .str t => pure (strStartsWith s t)
+     | _, _ => throw .typeMismatch)
+  | .endsWith =>
+    (match x, y with
+     | .str s, .str t => pure (strEndsWith s t)
+     | _, _ => throw .typeMismatch)
+  | .before => do
+    let d1 ← parseDt cx.o cx.strict x
+    let d2 ← parseDt cx.o cx.strict y
+    pure (d1 < d2)
+  | .after => do
+    let d1 ← parseDt cx.o cx.strict x
+    let d2 ← parseDt cx.o cx.strict y
+    pure (d1 > d2)
+  | .between => do
+    let d ← parseDt cx.o cx.strict x
+    match y with
+    | .list [lo, hi] =>
+      let s ← parseDt cx.o cx.strict (resolve cx.o lo cx.env)
+      let e ← parseDt cx.o cx.strict (resolve cx.o hi cx.env)
+      pure (s <= d && d <= e)
+    | _ => throw .typeMismatch
+
+theorem evalBin_eq (cx : CondCtx) (op : BinOp) (v : PyVal) :
+    evalBin cx op v = bind (Rbacx.unpack2 v) fun p => evalOp cx op (resolve cx.o p.1 cx.env) (resolve cx.o p.2 cx.env) := by
+  unfold evalBin
+  cases Rbacx.unpack2 v with
+  | error e => rfl
+  | ok p => obtain ⟨a, b⟩ := p; cases op <;> rfl
+
+/-- a returned truth value as the result of a statement range -/
+def retBool (b : Bool) : Flow := .ret (.bool b)
+
+/-- one `if OP in cond: a, b = cond[OP]; <body>` statement followed by `rest`, on a dict `cond` -/
+def opBranch {β : Type} (kvs : List (String × PyVal)) (key : String) (body : PyVal → PyVal → Except CondErr β)
+    (rest : Except CondErr β) : Except CondErr β :=
+  if PyVal.hasKey (.dict kvs) key then bind (Rbacx.unpack2 ((PyVal.dict kvs).get key)) (fun p => body p.1 p.2) else rest
+
+/-- THE generic lemma about the shape every operator branch has: the membership test cannot raise on a dict, the subscript cannot
+    raise once the key is present, the unpacking raises what the model's `unpack2` says -/
+theorem binop_head {β : Type} (kvs : List (String × PyVal)) (key : String) (body : PyVal → PyVal → Except CondErr β)
+    (rest : Except CondErr β) :
+    (bind (containsE (.dict kvs) (.str key)) fun t =>
+      if t.truthy then (bind (itemE (.dict kvs) (.str key)) fun v => unpack2 v body) else rest) = opBranch kvs key body rest := by
+  cases h : lookup key kvs with
+  | none => simp [containsE, truthy, opBranch, PyVal.hasKey, h]
+  | some v => simp [containsE, truthy, opBranch, PyVal.hasKey, itemE, PyVal.get, h, unpack2_eq]
+
+/-- the model's dispatch over the operator keys, in the order of the `if` chain -/
+def chainModel (cx : CondCtx) (cond : PyVal) : List BinOp → Except CondErr Flow
+  | [] => .ok .next
+  | op :: ops => if cond.hasKey op.key then (evalBin cx op (cond.get op.key)).map retBool else chainModel cx cond ops
+
+theorem chainModel_eq (cx : CondCtx) (cond : PyVal) (ops : List BinOp) :
+    chainModel cx cond ops =
+      match ops.find? (fun op => cond.hasKey op.key) with
+      | some op => (evalBin cx op (cond.get op.key)).map retBool
+      | Option.none => .ok .next := by
+  induction ops with
+  | nil => rfl
+  | cons op ops ih =>
+    simp only [chainModel, List.find?]
+    cases h : cond.hasKey op.key <;> simp [ih]
+
+/-- one step of the chain: a translated branch whose body computes the model's operator, in front of a rest that is the model's rest -/
+theorem opBranch_step (cx : CondCtx) (kvs : List (String × PyVal)) (op : BinOp) (ops : List BinOp)
+    (body : PyVal → PyVal → Except CondErr Flow) (rest : Except CondErr Flow)
+    (hbody : ∀ a b, body a b = (evalOp cx op (resolve cx.o a cx.env) (resolve cx.o b cx.env)).map retBool)
+    (hrest : rest = chainModel cx (.dict kvs) ops) :
+    opBranch kvs op.key body rest = chainModel cx (.dict kvs) (op :: ops) := by
+  simp only [opBranch, chainModel, evalBin_eq, hrest]
+  cases PyVal.hasKey (.dict kvs) op.key with
+  | false => rfl
+  | true =>
+    simp only [if_true]
+    cases Rbacx.unpack2 ((PyVal.dict kvs).get op.key) with
+    | error e => rfl
+    | ok p => simp only [bind_ok, hbody]
+
+/-- the external `_parse_dt` as the model has it: the parsed instant as an aware datetime (`strict` is the value of `_is_strict(env)`) -/
+def parseDtExt (o : Oracle) : PyVal → PyVal → Except CondErr PyVal :=
+  fun x strict => (parseDt o strict.truthy x).map (PyVal.dt true)
+
+theorem allE_ok (p : PyVal → Bool) (xs : List PyVal) :
+    allE xs (fun x => .ok (.bool (p x))) = .ok (.bool (xs.all p)) := by
+  induction xs with
+  | nil => rfl
+  | cons x xs ih =>
+    simp only [allE, bind_ok, truthy, List.all_cons, ih]
+    cases p x <;> rfl
+
+theorem anyE_ok (p : PyVal → Bool) (xs : List PyVal) :
+    anyE xs (fun x => .ok (.bool (p x))) = .ok (.bool (xs.any p)) := by
+  induction xs with
+  | nil => rfl
+  | cons x xs ih =>
+    simp only [anyE, bind_ok, truthy, List.any_cons, ih]
+    cases p x <;> rfl
+
+theorem containsE_list (xs : List PyVal) : (fun x => containsE (.list xs) x) = fun x => .ok (.bool (pyIn x xs)) := rfl
+
+end Rbacx.PyE
